@@ -286,6 +286,36 @@ func cmdCheck(args []string) int {
 	} else if !*updateClaims {
 		return toolFailure("no claims file " + claimFile)
 	}
+	// Obligations of the reads-frame rules are named after the local they speak about
+	// (F/rule:local).  A renamed local yields the same obligation under a new name: a claimed name
+	// that vanished is paired with a generated, unclaimed obligation of the same function and rule
+	// (which is discharged like every other one); only a surplus of vanished names is reported.
+	var renamedObls []string
+	if len(missing) > 0 {
+		claimed := map[string]bool{}
+		if data, err := os.ReadFile(claimFile); err == nil {
+			for _, n := range strings.Split(strings.TrimSpace(string(data)), "\n") {
+				claimed[strings.TrimSpace(n)] = true
+			}
+		}
+		fresh := map[string][]string{}
+		for _, o := range all {
+			if m := localNamedObl.FindStringSubmatch(o.Name); m != nil && !claimed[o.Name] {
+				fresh[m[1]] = append(fresh[m[1]], o.Name)
+			}
+		}
+		var still []string
+		for _, n := range missing {
+			if m := localNamedObl.FindStringSubmatch(n); m != nil && len(fresh[m[1]]) > 0 {
+				sort.Strings(fresh[m[1]])
+				renamedObls = append(renamedObls, n+" -> "+fresh[m[1]][0])
+				fresh[m[1]] = fresh[m[1]][1:]
+				continue
+			}
+			still = append(still, n)
+		}
+		missing = still
+	}
 
 	// triage
 	nViol := 0
@@ -398,6 +428,9 @@ func cmdCheck(args []string) int {
 	ev.Coverage["trusted_base"] = tb
 	ev.Coverage["functions_under_contract"] = funcs
 	ev.Coverage["own_functions"] = len(own)
+	if len(renamedObls) > 0 {
+		ev.Coverage["obligations_renamed"] = renamedObls
+	}
 	ev.Coverage["obligations_by_backend"] = byBackend
 	ev.Coverage["solver_time_s"] = map[string]float64{"sum": round2(solverSum), "max": round2(solverMax)}
 	ev.Coverage["vc_generation_s"] = round2(genTime)
@@ -540,6 +573,8 @@ func cmdCheck(args []string) int {
 
 // obligations named by source-order ordinal (safety checks) are not pinned in the claims file:
 // a harmless edit that adds or removes an index expression renumbers them
+var localNamedObl = regexp.MustCompile(`^(.+/(?:payload-value-stable|secondary-input-digested|reads-after-TryCache)):[^:/]+$`)
+
 var ordinalName = regexp.MustCompile(`/(index|slice|div|nil|make|assert|panic|pre|conv|overflow|decreases|bits)#\d+$`)
 
 var propNotes = map[string]map[string]interface{}{}
